@@ -69,6 +69,12 @@ class FakeBleClient:
     async def read_gatt_char(self, handle):
         iid = handle.iid if isinstance(handle, Handle) else handle
         override = await self.rig.gate("read", iid, None)
+        if isinstance(override, str) and override == "then-drop":
+            # the read completes with the accessory's data and the accessory hangs up right after it
+            data = self.acc.gatt_read(iid)
+            self.ops.append(("read", iid, len(data)))
+            self.peer_disconnect()
+            return bytearray(data)
         if not self.is_connected:
             from bleak.exc import BleakError
 
